@@ -684,6 +684,7 @@ var errTable = []struct {
 	{list.ErrNoReadKey, "noreadkey"},
 	{list.ErrEmptyAclRecordData, "emptydata"},
 	{list.ErrAddRecordOneToOne, "onetoone"},
+	{list.ErrReadKeyChangeNotAlone, "rkcalone"},
 }
 
 // errEnum maps an error of the real code to the small enum shared with the model. Errors of the
